@@ -492,3 +492,4 @@ RULES = [
 	('15.y', 'no reviewed function gained a swallowed error (the Result of a fallible in-crate call dropped; rules/provenance.py)', lambda F: provenance.dr_for_property(F, 'C15', '15.y')),
 ]
 RULES.append(('15.R', 'state resets: every reviewed constant write to persistent state (flag = true / false, counter = 0, pending slot = None) of a function is still made (rules/provenance.py)', lambda F: provenance.flags_for_property(F, 'C15', '15.R')))
+RULES.append(('15.P', 'panic sites: no reviewed function that parses / handles untrusted input gained an unwrap / expect / explicit panic / bounds-checked index / length-checked copy / division (rules/provenance.py; panic freedom itself is not decided)', lambda F: provenance.panics_for_property(F, 'C15', '15.P')))
